@@ -1,0 +1,48 @@
+//go:build verif
+
+package postprocess
+
+// Contracts for the deductive verifier in /verif (comment-only file, build tag verif).
+
+// C10: the resolver announces `pending` (and counts as outstanding) every descriptor of
+// GraphQLDeferResponse.DeferDescriptors, but renders and completes only the defers that own a fetch group in
+// the execution tree. buildDeferTree must therefore leave no descriptor without a group.
+//@ spec ownsGroup(response *resolve.GraphQLDeferResponse, id int) bool = exists k in 0..len(response.Defers) :: response.Defers[k].DeferID == id
+
+//@ func buildDeferTree.pruneDescriptorsWithoutFetches$1
+//@   ensures {nearest.ancestor.owns.a.group.or.top.level} result == 0 || has(hasGroup, result)
+//@   pure
+//@   loop 0:
+//@     invariant true
+
+//@ func buildDeferTree.pruneDescriptorsWithoutFetches
+//@   requires response != nil
+//@   ensures {every.descriptor.owns.a.fetch.group} forall id :: has(response.DeferDescriptors, id) ==> ownsGroup(response, id)
+//@   ensures {descriptors.are.dropped.never.invented} forall id :: has(response.DeferDescriptors, id) ==> old(has(response.DeferDescriptors, id))
+//@   ensures {kept.descriptors.keep.their.id} forall id :: has(response.DeferDescriptors, id) ==> response.DeferDescriptors[id].ID == old(response.DeferDescriptors[id].ID)
+//@   ensures {parents.own.a.group} arr(response.DeferDescriptors) != old(arr(response.DeferDescriptors)) ==> (forall id :: has(response.DeferDescriptors, id) ==> response.DeferDescriptors[id].ParentID == 0 || ownsGroup(response, response.DeferDescriptors[id].ParentID))
+//@   ensures {groups.untouched} response.Defers == old(response.Defers)
+//@   modifies response.DeferDescriptors
+//@   loop 0:
+//@     invariant fresh(hasGroup)
+//@     invariant forall id :: has(hasGroup, id) ==> ownsGroup(response, id)
+//@   loop 1:
+//@     invariant !orphans ==> (forall id :: visited(0, id) ==> has(hasGroup, id))
+//@   loop 2:
+//@     invariant fresh(pruned)
+//@     invariant forall id :: has(pruned, id) ==> has(hasGroup, id) && has(response.DeferDescriptors, id) && pruned[id].ID == response.DeferDescriptors[id].ID && (pruned[id].ParentID == 0 || has(hasGroup, pruned[id].ParentID))
+
+//@ func buildDeferTree.Process
+//@   requires response != nil && b != nil
+//@   ensures {every.announced.defer.is.scheduled} !old(b.disable) ==> (forall id :: has(response.DeferDescriptors, id) ==> ownsGroup(response, id))
+//@   modifies *
+//@   loop 0:
+//@     invariant fresh(childrenOf) && response.Defers == old(response.Defers)
+//@     invariant forall k :: has(childrenOf, k) ==> childrenOf[k] == nil || fresh(childrenOf[k])
+//@     invariant forall id :: has(response.DeferDescriptors, id) ==> ownsGroup(response, id)
+//@   loop 1:
+//@     invariant fresh(childrenOf) && response.Defers == old(response.Defers)
+//@     invariant forall k :: has(childrenOf, k) ==> childrenOf[k] == nil || fresh(childrenOf[k])
+//@     invariant forall id :: has(response.DeferDescriptors, id) ==> ownsGroup(response, id)
+//@   loop 2:
+//@     invariant forall id :: has(response.DeferDescriptors, id) ==> ownsGroup(response, id)
